@@ -430,6 +430,13 @@ func (*c18) Shrink(ci any, fails func(c any) bool) any {
 	if !fails(cur) {
 		return c
 	}
+	if len(cur.CPairs) > 0 { // the constraint pairs play no part in the oracle
+		cand := clone(cur)
+		cand.CPairs, cand.CVers = nil, nil
+		if fails(cand) {
+			cur = cand
+		}
+	}
 	for i := len(cur.Gets) - 1; i >= 0; i-- {
 		cand := clone(cur)
 		cand.Gets = append(cand.Gets[:i], cand.Gets[i+1:]...)
